@@ -358,13 +358,14 @@ def u_save_load(root):
     c = Contract("MinimizerBase", "_save_state")
 
     def post_save(vw):
-        saved.clear(); saved.update(d.d)
-        out = [("every cache has an entry in the snapshot", z3.BoolVal(set(KEYS) | {"did_fit"} <= set(d.d)))]
+        dd = vw.eng.read_field(vw.post, vw.self, "_save_state_dict")        # the dict as it is on THIS path
+        saved.clear(); saved.update(dd.d)
+        out = [("every cache has an entry in the snapshot", z3.BoolVal(set(KEYS) | {"did_fit"} <= set(dd.d)))]
         for k_, f_ in KEYS.items():
-            if k_ in d.d:
-                out.append((f"snapshot['{k_}'] is the value of {f_} (None stays None)", same(as_opt(d.d[k_]), fld(vw, vw.pre, f_))))
-        if "did_fit" in d.d:
-            out.append(("snapshot['did_fit'] is the did-fit flag", d.d["did_fit"].e == fld(vw, vw.pre, "_did_fit").e))
+            if k_ in dd.d:
+                out.append((f"snapshot['{k_}'] is the value of {f_} (None stays None)", same(as_opt(dd.d[k_]), fld(vw, vw.pre, f_))))
+        if "did_fit" in dd.d:
+            out.append(("snapshot['did_fit'] is the did-fit flag", dd.d["did_fit"].e == fld(vw, vw.pre, "_did_fit").e))
         return out
     c.ensures.append(post_save)
     for cfg in range(4):       # None-ness pattern of the caches decided per configuration (two representative splits each way)
